@@ -35,8 +35,13 @@ ADDABLE = ("collections.Counter", "collections.deque", "fractions.Fraction", "de
 ADDABLE_RESOLVE_ONLY = (
     "numpy._core.multiarray._reconstruct", "numpy._core.multiarray.scalar", "numpy.core.multiarray.scalar",
     "torch._utils._rebuild_parameter", "argparse.ArgumentParser", "copyreg.__newobj__", "_io.StringIO",
-    "numpy.int64", "torch.ComplexFloatStorage",
+    "numpy.int64", "torch.ComplexFloatStorage", "os.getcwdb", "os.fstat",
 )
+# names that are never permitted but are *part of* the spelling of a permitted name of the same
+# module (numpy.ndarray, torch.FloatStorage, torch.float32, copyreg._reconstructor, the additions
+# os.getcwdb / os.fstat ...): resolved only
+NEAR_MISS = ("numpy.array", "torch.Storage", "torch.float", "copyreg.constructor", "os.getcwd", "os.stat",
+             "torch._tensor._rebuild_from_type", "collections.Count")
 BASE_NAMES = ("collections.OrderedDict", "collections.defaultdict")
 # ("fractions.Decimal" / "decimal.Fraction": members of two addable modules crossed - never added)
 NEVER = ("verif_sink.sink", "fractions.Decimal", "decimal.Fraction")
@@ -89,7 +94,7 @@ def probe_bytes(dotted):
         return (b"\x80\x04\x8c" + bytes([len(module)]) + module.encode() + b"\x8c" + bytes([len(name)])
                 + name.encode() + b"\x93.")  # fmt: skip
     module, name = dotted.rsplit(".", 1)
-    if dotted in ADDABLE_RESOLVE_ONLY:
+    if dotted in ADDABLE_RESOLVE_ONLY or dotted in NEAR_MISS:
         return f"c{module}\n{name}\n.".encode()
     return f"c{module}\n{name}\n)R.".encode()
 
@@ -163,6 +168,26 @@ class Model:
         return "allowed" if in_base(dotted) or dotted in adds else "blocked"
 
 
+class ListedInFile(list):
+    """the caller's additions, in a carrier that is a list *and* names a file holding the same
+    lines (a reviewed allow-file the application also keeps in memory): whichever way the library
+    reads them, they are this activation's additions"""
+
+    def __init__(self, items):
+        import os
+
+        from vlib import env
+
+        super().__init__(items)
+        os.makedirs(env.SCRATCH, exist_ok=True)
+        self._path = os.path.join(env.SCRATCH, f"c11-allow.{os.getpid()}.txt")
+        with open(self._path, "w") as f:
+            f.write("".join(x + "\n" for x in items))
+
+    def __fspath__(self):
+        return self._path
+
+
 def step(model, st):
     """apply a step to the real system and the model; returns message or None"""
     import fickling.hook as hook
@@ -170,7 +195,14 @@ def step(model, st):
     kind = st[0]
     if kind == "activate":
         adds = list(st[1])
-        hook.activate_safe_ml_environment(also_allow=adds or None)
+        carrier = ListedInFile(adds) if len(adds) % 2 else adds
+        try:
+            hook.activate_safe_ml_environment(also_allow=carrier or None)
+        finally:
+            if isinstance(carrier, ListedInFile):
+                import os
+
+                os.remove(carrier._path)
         model.active, model.current = True, frozenset(adds)
         model.armed = False
     elif kind == "deactivate":
@@ -246,7 +278,7 @@ def _machine(res, holder):
     from hypothesis.stateful import RuleBasedStateMachine, rule
 
     adds = st.lists(st.sampled_from(ADDABLE + ADDABLE + ADDABLE_RESOLVE_ONLY), max_size=3, unique=True).map(tuple)
-    names = st.sampled_from(BASE_NAMES + ADDABLE + ADDABLE + NEVER + ADDABLE_RESOLVE_ONLY + tuple(QUALIFIED) + tuple(PY2_SPELLED))
+    names = st.sampled_from(BASE_NAMES + ADDABLE + ADDABLE + NEVER + NEAR_MISS + ADDABLE_RESOLVE_ONLY + tuple(QUALIFIED) + tuple(PY2_SPELLED))
 
     class Env(RuleBasedStateMachine):
         def __init__(self):
